@@ -6,9 +6,13 @@ import (
 	"fmt"
 	"go/token"
 	"go/types"
+	"os"
+	"strings"
 
 	"golang.org/x/tools/go/ssa"
 )
+
+var traceFn = os.Getenv("HCSYM_TRACE")
 
 type fnInfo struct {
 	idx    map[ssa.Value]int
@@ -576,7 +580,7 @@ func (m *Machine) store(addr, v value) {
 		if len(m.truncEnd) > 0 && m.truncEnd[p] {
 			panic(m.boundFail("write reaches the end of a slice materialised only up to the make cap"))
 		}
-		*p = copyVal(v)
+		assignInPlace(p, v)
 	case *symPtr:
 		nv, ok := v.(*Term)
 		if !ok {
@@ -591,6 +595,29 @@ func (m *Machine) store(addr, v value) {
 	default:
 		panic(fmt.Sprintf("store to %T", addr))
 	}
+}
+
+// assignInPlace stores v into *p. Aggregates are copied element-wise into the existing
+// backing storage, so that addresses of fields/elements taken earlier stay valid (Go
+// semantics: a struct assignment does not move the struct).
+func assignInPlace(p *value, v value) {
+	switch nv := v.(type) {
+	case structure:
+		if old, ok := (*p).(structure); ok && len(old) == len(nv) {
+			for i := range nv {
+				assignInPlace(&old[i], nv[i])
+			}
+			return
+		}
+	case array:
+		if old, ok := (*p).(array); ok && len(old) == len(nv) {
+			for i := range nv {
+				assignInPlace(&old[i], nv[i])
+			}
+			return
+		}
+	}
+	*p = copyVal(v)
 }
 
 func (fr *frame) prepareCall(call *ssa.CallCommon) (fn value, args []value) {
@@ -744,6 +771,9 @@ func (fr *frame) runBlocks() {
 	instrs:
 		for ; i < len(b.Instrs); i++ {
 			m.step()
+			if traceFn != "" && strings.Contains(fr.info.name, traceFn) {
+				fmt.Fprintf(os.Stderr, "TRACE %s b%d: %v\n", fr.fn.Name(), b.Index, b.Instrs[i])
+			}
 			switch fr.visit(b.Instrs[i]) {
 			case kReturn:
 				return
